@@ -70,6 +70,13 @@ def cases(tier, seed):
                                       ['cd_deleted'], ['cd_deleted', 'env_set'], ['env_unset', 'cd_deleted'])):
                 yield {'d': 1, 'ending': e, 'keep': keep, 'disturb': list(dist), 'out': OUT_KINDS[(i + len(e)) % 5],
                        'rc': (7 * len(e) + i) % 256, 'where': ['setup', 'before-assert', 'cleanup'][i % 3]}
+    # the directory Exactly was started in is removed during the run
+    for e in D1_ENDINGS:
+        for keep in (False, True):
+            yield {'d': 1, 'ending': e, 'keep': keep, 'disturb': [], 'out': 'text', 'rc': (3 * len(e)) % 256,
+                   'where': 'setup', 'startdel': True}
+            yield {'d': 1, 'ending': e, 'keep': keep, 'disturb': ['cd_tmp', 'env_set'], 'out': 'empty', 'rc': 0,
+                   'where': 'cleanup', 'startdel': True}
     # the action given with a transformation of its output: result/stdout holds the transformed output, result/stderr
     # and result/exit-code those of the action (every kind of output, also none at all)
     for tr in ACT_TRS[1:]:
@@ -279,6 +286,10 @@ def build_d1(case, marker_dir):
         L['cleanup'].append('dir -rel-act gone/deeper')
         L['cleanup'].append('cd -rel-act gone/deeper')
         L['cleanup'].append('$ rmdir "$PWD"')
+    if case.get('startdel'):
+        # the directory Exactly was STARTED in is removed by the case (the last thing it does): the current directory
+        # cannot be put back, everything else the statement promises still can
+        L['cleanup'].append('$ rmdir ' + os.path.join(marker_dir, 'startdir'))
     if 'chmod_tree' in d and 'cd_deleted' not in d:
         add('$ chmod -R a-w @[EXACTLY_ACT]@ @[EXACTLY_TMP]@')
     e = case['ending']
@@ -359,7 +370,12 @@ def run_d1(case, ctx):
     argv = (['--keep'] if case['keep'] else []) + [os.path.join(d, 't.case')]
     os.environ['VF_C04_A'] = 'orig-a'
     os.environ['VF_C04_B'] = 'orig-b'
-    r = ses.run(argv, cwd=d, mode='keep' if case['keep'] else 'normal')
+    start = d
+    if case.get('startdel'):
+        start = os.path.join(d, 'startdir')
+        os.makedirs(start, exist_ok=True)
+        ctx.count('c04.start_dir_removed_runs')
+    r = ses.run(argv, cwd=start, mode='keep' if case['keep'] else 'normal')
     ctx.count('c04.d1_runs')
     viol = []
     inconc = []
@@ -373,7 +389,7 @@ def run_d1(case, ctx):
         bad('exception escaped: %s' % r.exc[-300:])
     else:
         ctx.count('c04.after_return_checks')
-        if r.cwd_after != r.cwd_before:
+        if r.cwd_after != r.cwd_before and not (case.get('startdel') and not os.path.isdir(start)):
             bad('current directory of the Exactly process is %r after the run, was %r' % (r.cwd_after, r.cwd_before))
         if r.env_after != r.env_before:
             diff = {k: (r.env_before.get(k), r.env_after.get(k)) for k in set(r.env_before) | set(r.env_after)
@@ -444,7 +460,7 @@ def run_d1(case, ctx):
                                 bad('result/ holds %r besides the documented %r' % (extra, RESULT_FILES))
     # the same case executed as a member of a suite (`exactly suite`): every execution uses its own sandbox, which is
     # removed when the case ends, and the process is left as it was
-    if not case['keep'] and not r.timed_out and 'cd_deleted' not in case['disturb'] and \
+    if not case['keep'] and not r.timed_out and 'cd_deleted' not in case['disturb'] and not case.get('startdel') and \
             (len(text) + case['rc']) % 3 == 0:
         ses.clean_tmp()
         driver.write_files(d, {'two.case': '[act]\n$ true\n', 's.suite': '[cases]\nt.case\ntwo.case\n'})
@@ -486,3 +502,21 @@ def run_case(case, ctx):
     if case['d'] == 2:
         return run_d2(case, ctx)
     return run_d1(case, ctx)
+
+
+# ---------------------------------------------------------------------------------------------------------------
+# known findings (keyed by mechanism; see /verif/known_findings.json)
+# ---------------------------------------------------------------------------------------------------------------
+def _known_keep_start_dir_removed(v):
+    """--keep + the directory Exactly was started in removed by the case: putting the current directory back fails after
+    the execution proper has ended; the run ends as INTERNAL_ERROR naming that directory, the sandbox is kept but its
+    path is not reported."""
+    d = v.get('detail') or {}
+    o = d.get('observed') or {}
+    return ("--keep: stdout '' does not report the sandbox" in v.get('what', '')
+            and o.get('rc') == 129 and o.get('out') == ''
+            and 'No such file or directory' in (o.get('err') or '') and "startdir'" in (o.get('err') or '')
+            and 'rmdir ' in (d.get('case_text') or '') and '--keep' in (o.get('argv') or []))
+
+
+KNOWN = {'keep-start-dir-removed-sandbox-path-not-reported': _known_keep_start_dir_removed}
